@@ -316,6 +316,8 @@ def main():
     refinement = strip_comments(read("src/delaunay_core/refinement.rs"))
     hull = strip_comments(read("src/delaunay_core/handles/iterators/hull_iterator.rs"))
     flood = strip_comments(read("src/flood_fill_iterator.rs"))
+    himpl = strip_comments(read("src/delaunay_core/handles/handle_impls.rs"))
+    pubh = strip_comments(read("src/delaunay_core/handles/public_handles.rs"))
     out = []
     w = out.append
     w("/- GENERATED by translator/t0.py from /repo's current source — do not edit. -/")
@@ -658,6 +660,63 @@ def main():
         w(f"def hullStepBack : Link := .{mp[nb.strip()]}")
         w("")
     guarded("hull_iterator", hulliter)
+
+    # --- Voronoi edge navigation (public_handles.rs) and cw / ccw (handle_impls.rs)
+    def voronoi():
+        def chain(body, recv="self"):
+            """`self.a().b()` -> ['a', 'b'] (no arguments)"""
+            b = re.sub(r"\s+", "", body)
+            if not b.startswith(recv):
+                raise ValueError("unexpected receiver in " + body)
+            parts = b[len(recv):].split(".")
+            if parts[0] != "" or not all(re.fullmatch(r"[a-z_]+\(\)", q) for q in parts[1:]):
+                raise ValueError("unexpected call chain " + body)
+            return [q[:-2] for q in parts[1:]]
+        _, b_cw = find_fn(himpl, "cw")
+        _, b_ccw = find_fn(himpl, "ccw")
+        prim = {"next": "next", "prev": "prev", "rev": "rev"}
+        cwp, ccwp = chain(b_cw), chain(b_ccw)
+        if not all(q in prim for q in cwp + ccwp):
+            raise ValueError("cw/ccw: unexpected links")
+        vimpl = pubh[pubh.index("DirectedVoronoiEdge<'a, V, DE, UE, F> {\n    /// Returns the voronoi edge's destination") if "DirectedVoronoiEdge<'a, V, DE, UE, F> {\n    /// Returns the voronoi edge's destination" in pubh else pubh.index("pub fn to(&self) -> VoronoiVertex") - 200:]
+        def dual(name):
+            _, b = find_fn(vimpl, name)
+            c = chain(b)
+            if len(c) != 3 or c[0] != "as_delaunay_edge" or c[2] != "as_voronoi_edge" or c[1] not in ("rev", "cw", "ccw", "next", "prev"):
+                raise ValueError(name + ": unexpected shape " + b.strip())
+            return c[1]
+        vrev, vnext, vprev = dual("rev"), dual("next"), dual("prev")
+        _, b_to = find_fn(vimpl, "to")
+        if chain(b_to) != ["rev", "from"]:
+            raise ValueError("to: unexpected shape")
+        _, b_face = find_fn(vimpl, "face")
+        if chain(b_face) != ["as_delaunay_edge", "from", "as_voronoi_face"]:
+            raise ValueError("face: unexpected shape")
+        _, b_from = find_fn(vimpl, "from")
+        want = re.sub(r"\s+", "", "if let Some(face) = self.as_delaunay_edge().face().as_inner() { VoronoiVertex::Inner(face) } else { VoronoiVertex::Outer(*self) }")
+        if re.sub(r"\s+", "", b_from) != want:
+            raise ValueError("from: unexpected shape")
+        _, b_dir = find_fn(pubh, "direction_vector")
+        want = re.sub(r"\s+", "", """let from = self.as_delaunay_edge().from().position();
+            let to = self.as_delaunay_edge().to().position();
+            let diff = Point2::sub(&to, from);
+            Point2::new(-diff.y, diff.x)""")
+        if re.sub(r"\s+", "", b_dir) != want:
+            raise ValueError("direction_vector: unexpected shape")
+        w("/-- links of a directed edge handle; `cw` / `ccw` as the code composes them (`handle_impls.rs`) -/")
+        w("inductive DLink where | next | prev | rev | cw | ccw deriving DecidableEq, Repr")
+        w(f"def cwPath : List DLink := [{', '.join('.' + q for q in cwp)}]")
+        w(f"def ccwPath : List DLink := [{', '.join('.' + q for q in ccwp)}]")
+        w("/-- `DirectedVoronoiEdge::{rev,next,prev}`: the link of the dual Delaunay edge each one follows;")
+        w("    `to` = `rev().from()`, `face` = origin of the dual edge, `from` = inner face of the dual edge or")
+        w("    the outer vertex (shape-checked) -/")
+        w(f"def vorRev : DLink := .{vrev}")
+        w(f"def vorNext : DLink := .{vnext}")
+        w(f"def vorPrev : DLink := .{vprev}")
+        w("/-- `DirectedVoronoiEdge::direction_vector` on the end points of the dual edge -/")
+        w("def vorDirection (from_ to_ : Pt) : Pt := ⟨-(to_.y - from_.y), to_.x - from_.x⟩")
+        w("")
+    guarded("voronoi", voronoi)
 
     # --- is_encroaching_edge
     def encroach():
